@@ -143,7 +143,7 @@ theorem runPlan_corr {c : Ctx} {pv : Option Vars} {rank : String → Nat} (hw : 
       | @ok fs pfs hab =>
         simp only
         have hnd : ∀ p ∈ pfs, NoDef p.2 := allCl_obj.1 (noDef_of_toJ? (.obj pfs) (.obj fs) (toJ?_obj hab))
-        rcases (dfsId (frc := force c (recompute c.schema c.frags pv) fuel) fuel).fields (sortedKeys pfs) pfs st hnd
+        rcases (dfsId (frc := forceAll c (recompute c.schema c.frags pv) fuel) fuel).fields (sortedKeys pfs) pfs st hnd
           with h2 | h2 <;> rw [h2]
         · exact .inl rfl
         · exact .inr (corr_ok hst hab)
@@ -161,7 +161,7 @@ theorem runPlan_corr {c : Ctx} {pv : Option Vars} {rank : String → Nat} (hw : 
     | @ok fs pfs hab =>
       simp only
       have hnd : NoDef (.obj pfs) := noDef_of_toJ? (.obj pfs) (.obj fs) (toJ?_obj hab)
-      rcases bfsLoop_noDef (frc := force c (recompute c.schema c.frags pv) fuel) fuel (.obj pfs) [[]] st hnd with h2 | h2 <;>
+      rcases bfsLoop_noDef (frc := forceAll c (recompute c.schema c.frags pv) fuel) fuel (.obj pfs) [[]] st hnd with h2 | h2 <;>
         rw [h2]
       · exact .inl rfl
       · exact .inr (corr_ok hst hab)
